@@ -430,12 +430,14 @@ var $methodSet = typ => {
     while (current.length > 0) {
         var next = [];
         var mset = [];
+        var atThisDepth = {};
 
         current.forEach(e => {
-            if (seen[e.typ.string]) {
+            if (seen[e.typ.id]) {
                 return;
             }
-            seen[e.typ.string] = true;
+            seen[e.typ.id] = true;
+            var firstOwn = mset.length; /* methods contributed by this type start here */
 
             if (e.typ.named) {
                 mset = mset.concat(e.typ.methods);
@@ -459,11 +461,33 @@ var $methodSet = typ => {
                     mset = mset.concat(e.typ.methods);
                     break;
             }
+            /* A method promoted by two different types at the same depth is ambiguous:
+               it is not in the method set, and it still hides deeper ones. */
+            var own = {};
+            var countOwn = name => {
+                if (!own[name]) {
+                    own[name] = true;
+                    atThisDepth[name] = (atThisDepth[name] || 0) + 1;
+                }
+            };
+            for (var k = firstOwn; k < mset.length; k++) {
+                countOwn(mset[k].name);
+            }
+            if (e.typ.named && !e.indirect) {
+                /* Pointer-receiver methods are not in the method set of a value, but
+                   their names still take part in ambiguity and hiding. */
+                $ptrType(e.typ).methods.forEach(m => { countOwn(m.name); });
+            }
         });
 
         mset.forEach(m => {
             if (base[m.name] === undefined) {
-                base[m.name] = m;
+                base[m.name] = atThisDepth[m.name] === 1 ? m : null;
+            }
+        });
+        Object.keys(atThisDepth).forEach(name => {
+            if (base[name] === undefined) {
+                base[name] = null; /* declared at this depth, but not callable on a value */
             }
         });
 
@@ -472,6 +496,9 @@ var $methodSet = typ => {
 
     typ.methodSetCache = [];
     Object.keys(base).sort().forEach(name => {
+        if (base[name] === null) {
+            return;
+        }
         typ.methodSetCache.push(base[name]);
     });
     return typ.methodSetCache;
